@@ -10,6 +10,8 @@
      Q <id> mat <n> <k> [I|Y|-] ; n lines R v.. (dense rows) ; [Y y..] ; k lines  FT a.. | x..   or  BT c.. | y..
          -> A <id> <S|N|X|?> <0|1 per check>     (I: singularity by the verified elimination; Y: y is checked to be a
             non-zero left null vector: S, else X; -: not decided)
+     Q <id> repr <n> <k>    ; FDUMP .. FDUMPEND ; n lines R v.. ; k lines FT a | x  /  BT c | y
+         -> A <id> <check_repr 0|1> <per solve: model walk over the dumped representation == library result>
    Everything that decides anything is extracted Coq code. *)
 open Model
 open Glue
@@ -119,6 +121,45 @@ let () =
              | _ -> failwith "FT/BT expected"
            done;
            Printf.printf "A %s %s%s\n" id verdict (Buffer.contents buf)
+         | "repr", [ n; k ] ->
+           (* representation dump of the factor_work (FDUMP .. FDUMPEND as printed by h_fac), the dense rows of the matrix it
+              is supposed to factor, then k solves FT a | x / BT c | y as returned by the library.
+              answer: check_repr, then per solve whether the model's walk over the dumped representation gives the same vector *)
+           let n = int_of_string n and k = int_of_string k in
+           let ents ts =
+             let rec go = function
+               | i :: v :: r -> (nat_of_int (int_of_string i), q_of_string v) :: go r
+               | [] -> [] | _ -> failwith "entries" in go ts in
+           let lc = ref [] and lr = ref [] and er = ref [] and uc = ref [] and ur = ref [] and rp = ref [] and cp = ref [] in
+           let fin = ref false in
+           while not !fin do
+             match next_tokens ic with
+             | Some ("FDUMP" :: _) -> ()
+             | Some ("RPERM" :: r) -> rp := List.map (fun t -> nat_of_int (int_of_string t)) r
+             | Some ("CPERM" :: r) -> cp := List.map (fun t -> nat_of_int (int_of_string t)) r
+             | Some ("RRANK" :: _) | Some ("CRANK" :: _) -> ()
+             | Some ("LC" :: c :: _cnt :: r) -> lc := (nat_of_int (int_of_string c), ents r) :: !lc
+             | Some ("LR" :: _i :: rr :: _cnt :: r) -> lr := (nat_of_int (int_of_string rr), ents r) :: !lr
+             | Some ("ER" :: rr :: _cnt :: r) -> er := (nat_of_int (int_of_string rr), ents r) :: !er
+             | Some ("UC" :: _j :: _cnt :: r) -> uc := ents r :: !uc
+             | Some ("UR" :: _i :: _cnt :: r) -> ur := ents r :: !ur
+             | Some [ "FDUMPEND" ] -> fin := true
+             | _ -> failwith "FDUMP line"
+           done;
+           let rep = { f_dim = nat_of_int n; f_lc = List.rev !lc; f_lr = List.rev !lr; f_er = List.rev !er;
+                       f_uc = List.rev !uc; f_ur = List.rev !ur; f_rperm = !rp; f_cperm = !cp } in
+           let rows = List.init n (fun _ -> qlist (expect ic "R")) in
+           let nn = nat_of_int n in
+           let buf = Buffer.create 64 in
+           for _ = 1 to k do
+             match next_tokens ic with
+             | Some ("FT" :: r) -> let (a, x) = split_bar r in
+               Buffer.add_string buf (" " ^ bit (List.length x = n && veqb nn (ftran_dense rep (qlist a)) (qlist x)))
+             | Some ("BT" :: r) -> let (c, y) = split_bar r in
+               Buffer.add_string buf (" " ^ bit (List.length y = n && veqb nn (btran rep (qlist c)) (qlist y)))
+             | _ -> failwith "FT/BT expected"
+           done;
+           Printf.printf "A %s %s%s\n" id (bit (check_repr rep rows)) (Buffer.contents buf)
          | _ -> Printf.printf "A %s UNKNOWN-QUERY\n" id)
       with Failure m -> Printf.printf "A %s PARSE-ERROR %s\n" id m);
       flush stdout; loop ()
